@@ -7,6 +7,7 @@ import Driver.Disabled
 import Driver.Rounds
 import Driver.Des
 import Driver.Context
+import Driver.ContextStr
 import Driver.CtxKey
 import Driver.Formats
 import Driver.Blowfish
@@ -46,6 +47,7 @@ def dispatch (line : String) : String :=
   | "rounds" :: rest => Driver.Rounds.handle rest
   | "des" :: rest => Driver.Des.handle rest
   | "ctx" :: rest => Driver.Context.handle rest
+  | "cstr" :: rest => Driver.ContextStr.handle rest
   | "ctxkey" :: rest => Driver.CtxKey.handle rest
   | "fmt" :: rest => Driver.Formats.handle rest
   | "bf" :: rest => Driver.Blowfish.handle rest
